@@ -363,7 +363,12 @@ pub fn run_probe_property<H: HB>(prop: &'static str, tier: Tier) -> Outcome {
         (_, false) => (4, 3),
     };
     let prios: Vec<i32> = (0..m).collect();
-    let mut cfg = base_cfg(prop, k, &prios, A_REACH | if prop == "C16" { A_CLEAR_DRAIN | A_DRAIN_FORGET } else { 0 });
+    let mut cfg = base_cfg(prop, k, &prios, A_REACH | match prop {
+        "C16" => A_CLEAR_DRAIN | A_DRAIN_FORGET,
+        // sorted consumption after in-place mutation from either end
+        "C06" => A_ITER_MUT | A_ITER_MUT_BACK | A_RETAIN_MUT,
+        _ => 0,
+    });
     cfg.deep = false;
     let universe = cfg.universe();
     let mk = |ex: &mut Explorer<H>| {
@@ -374,6 +379,25 @@ pub fn run_probe_property<H: HB>(prop: &'static str, tier: Tier) -> Outcome {
     run_closed::<H>(&mut out, &format!("E1 closed ({k} items x {m} priorities) + programs from every state"), &cfg, &mk);
     if !out.violations.is_empty() || prop == "C16" && q {
         return out;
+    }
+    if prop == "C06" {
+        // deep trees one operation away from a seed (remove / change / push / pop / conversion),
+        // then sorted consumption with the structured program family
+        for n in if q { vec![6usize, 7, 8] } else { vec![6, 7, 8, 9, 10, 16] } {
+            let mut c = seeds_cfg(prop, n, &REL_BIN, A_REACH);
+            c.deep = false;
+            let seeds = if n <= 8 { f_bin(n) } else { f_seg(n) };
+            let uni = c.universe();
+            let mk = |ex: &mut Explorer<H>| {
+                for p in crate::probes::all_probes::<H>("C06d", &uni[..3]) {
+                    ex.probes.push(p);
+                }
+            };
+            run_seeds::<H>(&mut out, &format!("E2 seeds of {n} elements, every operation (depth 1), sorted programs from every resulting state"), &c, seeds, 1, &mk);
+            if !out.violations.is_empty() {
+                return out;
+            }
+        }
     }
     // programs from deep trees too (depth 0: the seeds themselves)
     let sizes: Vec<usize> = match (prop, q) {
